@@ -226,11 +226,12 @@ Proof.
 Qed.
 Print Assumptions C14_front_end_consistent.
 
-(** ... also for subscription reports (the changed attributes of the subscribed paths, in expansion order). *)
+(** ... also for subscription reports: the changed attributes of the subscribed paths, in expansion order, read
+    from the node with the bumped data versions -- and regardless of the subscribe request's data-version filters. *)
 Theorem C14_report_front_end_consistent :
   forall (nd : node) (qs chs : list rpath),
   forallb item_ok (report_items_of nd qs chs) = true /\
-  (forall it, In it (report_items_of nd qs chs) -> In it (items_of nd [] qs)).
+  (forall it, In it (report_items_of nd qs chs) -> In it (items_of (bump_node nd chs) [] qs)).
 Proof.
   intros nd qs chs. split; [apply report_items_ok|].
   intros it H. unfold report_items_of in H. apply filter_In in H. tauto.
